@@ -190,6 +190,7 @@ MUTS=[
 	}
 	if !proof.MTP.Existence {''','''	if !proof.MTP.Existence {''','C08'),
  ('tree-state-compare-ge','credential_status.go','return wantState.Cmp(stateHash.BigInt()) == 0, nil','return wantState.Cmp(stateHash.BigInt()) >= 0, nil','C08'),
+ ('status-nonce-through-int64','credential_status.go','revNonce := new(big.Int).SetUint64(credStatus.RevocationNonce)','revNonce := big.NewInt(int64(credStatus.RevocationNonce))','C07'),
  ('binding-check-deleted','credential.go','''	err = vc.verifyCredentialCoreClaim(ctx, coreClaim, verifyConfig.merklizeOptions)
 	if err != nil {
 		return errors.WithStack(err)
